@@ -114,6 +114,7 @@ class ExecImpl : public ClauseSink {
   void op_pop_tracer(const Op&);
   void op_set_reporter(const Op&);
   void op_mutate(const Op&);
+  void op_wide(const Op&);
   void final_cleanup();
 
   // ---- checks ----
